@@ -49,6 +49,7 @@ def main():
     a = ap.parse_args()
     pid, tier = a.pid, ('thorough' if a.tier == 'thorough' else 'quick')
     t0 = time.time()
+    linecov = core.start_line_coverage() if not a.replay else None   # before rxsci is imported
     mod = importlib.import_module('harness.props.' + pid)
     core.workdir(pid)
     known = core.load_known(pid)
@@ -108,6 +109,7 @@ def main():
         if f:
             f['index'] = i
             fails.append(f)
+    line_coverage = core.stop_line_coverage(linecov, pid)
     corr_errors, bad, nbad = [], set(), 0
     # the model files are separate from the proof files: they still build when a proof broke
     ok, blog = core.coq_build(' '.join(getattr(mod, 'COQ_TARGETS', ['models'])))
@@ -222,6 +224,9 @@ def main():
         'samples': samples, 'repo_head': core.git_head(core.REPO), 'verif_head': core.git_head(core.VERIF),
         'replay': replay,
     }
+    if line_coverage:
+        # which lines of the files the property is anchored in were executed by this run's inputs
+        cov['implementation_line_coverage'] = line_coverage
     if hasattr(mod, 'extra_coverage'):
         cov.update(mod.extra_coverage())
     core.write_evidence(pid, tier, a.seed, cov, getattr(mod, 'ASSUMPTIONS', []), time.time() - t0,
